@@ -6,6 +6,8 @@
 #include "vrt_st.h"
 #include "ref_format.h"
 #include "gen_text.h"
+#include "gen_scale.h"
+#include "ambient.h"
 
 using vrt::Rng;
 using vrt::sfmt;
@@ -70,13 +72,20 @@ static void run(int shape, const Values &v, const std::vector<S> &lits, const st
     } catch (const ST::bad_format &e) { exc = "ST::bad_format"; what = e.what();
     } catch (const std::out_of_range &e) { exc = "std::out_of_range"; what = e.what();
     } catch (const std::invalid_argument &e) { exc = "std::invalid_argument"; what = e.what(); }
-    std::string ctx = sfmt("fmt=%s (text: %s) args: %s", show(b.fmt).c_str(), vrt::json_escape(b.fmt).c_str(), describe_values(args).c_str());
+    // (big format strings and results are reported by length, hash and the bytes around the first difference)
+    const bool big = b.fmt.size() > 2000 || b.want.size() > 2000 || got.size() > 2000;
+    std::string ctx = big ? sfmt("shape=%d fmt: %s (starts: %s) args: %s", shape, scale::brief(b.fmt).c_str(), vrt::json_escape(b.fmt.substr(0, 60)).c_str(), describe_values(args).c_str())
+                          : sfmt("fmt=%s (text: %s) args: %s", show(b.fmt).c_str(), vrt::json_escape(b.fmt).c_str(), describe_values(args).c_str());
+    if (big && b.ok && !*exc && got != b.want) {
+        const size_t d = scale::first_diff(got, b.want);
+        ctx += sfmt(" first difference at byte %zu: got %s want %s;", d, scale::brief(got, d).c_str(), scale::brief(b.want, d).c_str());
+    }
     if (b.ok) {
         if (*exc) vrt::violation(sfmt("C11:unexpected-%s", exc), sfmt("%s: %s; want=%s", ctx.c_str(), what.c_str(), show(b.want).c_str()));
         else if (got != b.want) {
             // classify the mismatch for a readable key
             const char *cat = "wrong-output";
-            if (fields.size() == 1) {
+            if (fields.size() == 1 && !big) {         // (a big format string with one field: the literal runs are the subject)
                 const Arg *a = nullptr;
                 size_t idx = fields[0].argref > 0 ? fields[0].argref - 1 : 0;
                 if (idx < args.size()) a = &args[idx];
@@ -102,7 +111,7 @@ static void run(int shape, const Values &v, const std::vector<S> &lits, const st
     }
     if (fields.size() > 1) vrt::count("format.multi_field");
     vrt::distinct(vrt::fnv1a(b.want.data(), b.want.size(), vrt::fnv1a(b.fmt.data(), b.fmt.size(), static_cast<uint64_t>(shape) + 91)));
-    if (vrt::want_sample("format") && fields.size() >= 2 && b.ok && b.want.size() > 8)
+    if (vrt::want_sample("format") && fields.size() >= 2 && b.ok && b.want.size() > 8 && !big)
         vrt::sample("format", sfmt("ST::format(\"%s\", %s) == \"%s\"", vrt::json_escape(b.fmt).c_str(), describe_values(args).c_str(), vrt::json_escape(b.want).c_str()));
 }
 
@@ -119,6 +128,7 @@ static void set_ints(Values &v, unsigned long long mag, bool neg)
 
 static void body()
 {
+    ambient::enable(3);
     vrt::require("outcome.rendered", 10000);
     vrt::require("outcome.std::out_of_range", 100);
     vrt::require("outcome.ST::unicode_error", 20);
@@ -234,6 +244,92 @@ static void body()
         // a literal must not end in a lone '{' ... (literals never contain one) and must not
         // merge "}" + "}" across a field boundary: fields start with '{', so they cannot
         run(shape, v, lits, fields);
+    });
+    // ---- U+0000 and the precision: sized string arguments (ST::string, std::string, views, converted wide strings) are cut to
+    // the precision whatever their bytes are - U+0000 inside the kept part, at the cut, inside the cut part
+    vrt::require("nul_precision.cases", 5000);
+    vrt::require("nul_precision.U+0000_inside_the_kept_part_of_a_sized_string", 1000);
+    vrt::require("nul_precision.U+0000_is_the_last_kept_byte", 500);
+    vrt::require("nul_precision.U+0000_is_the_first_cut_byte", 500);
+    vrt::require("nul_precision.U+0000_inside_the_cut_part", 1000);
+    vrt::require("nul_precision.converted_wide_string", 1000);
+    vrt::phase("nul_precision", vrt::tier_count(20000, 600000), [&](uint64_t, Rng &r) {
+        Values v;
+        int shape = 3;
+        ScaleFmt sf;
+        nul_precision_case(r, v, shape, sf);
+        run(shape, v, sf.lits, sf.fields);
+    });
+
+    // ---- scale (rt/ref_format.h, last section): the same monitor (run) on format strings, arguments, renderings and pad runs of
+    // several KiB to a MiB whose features sit on / next to multiples of block sizes
+    const auto describe_only = [](const char *, auto &&...) {};
+    static const size_t CAP = (1u << 20) + 8192;
+    vrt::note("scale phases: (1) literal runs of up to 1 MiB in which {{ / }} / a field / a stray } / a 2-, 3-, 4-byte character / the end of the string begins q*B-k bytes "
+              "(B over scale::blocks(), q in 1..8, k in 0..3) behind the start of the run or of the string, chained; (2) 255..70000 fields in one format string, "
+              "argument lists of 9, 17 and 20; (3) text arguments of 1 KB..1 MiB with characters / U+0000 / the precision cut / the end on such multiples, "
+              "pad runs of up to 200000 behind texts and numbers, characters on multiples of the output offset");
+    vrt::require("scale.literal.cases", 300);
+    vrt::require("scale.literal.token_straddles_a_multiple", 300);
+    vrt::require("scale.literal.token_starts_on_a_multiple", 100);
+    vrt::require("scale.literal.measured_from_start_of_run", 50);
+    vrt::require("scale.literal.measured_from_start_of_string", 50);
+    vrt::require("scale.literal.format_string>=64KiB", 100);
+    vrt::require("scale.literal.format_string>=256KiB", 20);
+    for (int t = 0; t < N_TOK; ++t) vrt::require(S("scale.literal.token.") + tok_name(t), 50);
+    vrt::phase("scale_literals", vrt::tier_count(1344, 33600), [&](uint64_t i, Rng &r) {
+        const LiteralPlan p = literal_plan(i, N_TOK);
+        Values v;
+        random_values(r, v);
+        static const int shapes[] = {1, 2, 3, 5, 6, 7, 9, 10, 11, 12, 47, 200, 201, 202};
+        const int shape = r.pick(shapes);
+        std::vector<Arg> args;
+        call_shape(shape, v, "", &args, describe_only);
+        ScaleFmt sf;
+        if (!scale_literal_chain(r, p, p.kind, args.size(), CAP, true, sf)) { vrt::count("scale.literal.skipped_too_large"); return; }
+        run(shape, v, sf.lits, sf.fields);
+        if (vrt::want_sample("scale") && sf.len > 20000)
+            vrt::sample("scale", sfmt("format string of %zu bytes, %zu fields: %s begins at offsets %zu.. (block %zu, first multiple %zu, %zu bytes in front of it)", sf.len, sf.fields.size(),
+                                      tok_name(p.kind), sf.starts.empty() ? 0 : sf.starts[0], p.B, p.q0, p.k0));
+    });
+    vrt::require("scale.fields.cases", 40);
+    vrt::require("scale.fields.more_than_255_fields", 30);
+    vrt::require("scale.fields.more_than_65535_fields", 8);
+    vrt::require("scale.fields.more_than_16_arguments", 8);
+    vrt::require("scale.fields.sequential_field_behind_255_others", 20);
+    vrt::require("scale.fields.sequential_fields_one_more_than_arguments", 5);
+    vrt::phase("scale_fields", vrt::tier_count(96, 2400), [&](uint64_t i, Rng &r) {
+        Values v;
+        random_values(r, v);
+        static const int shapes[] = {200, 201, 202, 5, 47, 1, 10, 12, 200, 202};
+        const int shape = r.pick(shapes);
+        std::vector<Arg> args;
+        call_shape(shape, v, "", &args, describe_only);
+        ScaleFmt sf;
+        scale_many_fields(i, r, args.size(), r.chance(1, 4), sf);
+        run(shape, v, sf.lits, sf.fields);
+    });
+    vrt::require("scale.args.cases", 300);
+    vrt::require("scale.args.whole_text", 50);
+    vrt::require("scale.args.precision_cut", 50);
+    vrt::require("scale.args.precision>=4096", 30);
+    vrt::require("scale.args.text_with_pad_run", 50);
+    vrt::require("scale.args.number_with_pad_run", 50);
+    vrt::require("scale.args.pad_run>=65536", 20);
+    vrt::require("scale.args.text_of_block_length", 50);
+    vrt::require("scale.args.output_offset", 50);
+    vrt::require("scale.args.text_argument>=64KiB", 100);
+    vrt::require("scale.args.text_argument>=1MB", 5);
+    vrt::require("scale.args.character_straddles_a_multiple", 50);
+    vrt::require("scale.args.NUL_inside_the_kept_part", 5);
+    vrt::require("scale.args.text_through_a_UTF-16_argument", 20);
+    vrt::require("scale.args.text_through_a_UTF-32/wchar_t_argument", 20);
+    vrt::phase("scale_args", vrt::tier_count(840, 21000), [&](uint64_t i, Rng &r) {
+        Values v;
+        ArgCase c;
+        scale_arg_case(i, r, v, c, (1u << 20) + 4096, 1u << 21);
+        run(c.shape, v, c.f.lits, c.f.fields);
+        if (vrt::want_sample("scale-arguments")) vrt::sample("scale-arguments", sfmt("shape %d, format \"%s\": %s", c.shape, vrt::json_escape(c.f.text().substr(0, 80)).c_str(), c.what.c_str()));
     });
     vrt::alloc::check_pairing("fmtout");
 }
